@@ -5,7 +5,12 @@ def gen_session(rng, wills=False, flow=False):
     mi = rng.choice([1, 2, 3, 100]) if flow else 100
     # with a tight window the order of copies of one message (a Go map order) would become visible over time:
     # flow-control scenarios use onlyonce mode (one copy per client)
-    ops = [f"new mode={'onlyonce' if flow else rng.choice(['overlap', 'onlyonce'])} q0={rng.choice([0, 1])} se={se_cfg} mi={mi} maxq={rng.choice([1000, 1000, 3, 5]) if flow else 1000}"]
+    mode = 'onlyonce' if flow else rng.choice(['overlap', 'onlyonce'])
+    # overlap mode: the copies of one message for several overlapping subscriptions are enqueued in Go map order, and a resume
+    # replays them in that order (C03) — which copy gets which packet id is then visible and not predictable. In overlap mode the
+    # client therefore keeps ONE filter (re-subscribed with other options); overlapping filters in overlap mode are C01's business
+    one_filter = rng.choice(["t/a", "t/#", "t/+", "+/a"]) if mode == 'overlap' else None
+    ops = [f"new mode={mode} q0={rng.choice([0, 1])} se={se_cfg} mi={mi} maxq={rng.choice([1000, 1000, 3, 5]) if flow else 1000}"]
     ops.append("conn p cp v=5 cs=1")
     ops.append("sub p 1 w/#|1")         # the publisher also watches the will topic
     pid, tag, life = 1, 0, 0
@@ -70,7 +75,7 @@ def gen_session(rng, wills=False, flow=False):
         else:
             if r < 0.2:
                 pid += 1
-                f = rng.choice(["t/a", "t/#", "t/+", "+/a"])
+                f = one_filter or rng.choice(["t/a", "t/#", "t/+", "+/a"])
                 ops.append(f"sub {cur} {pid} {f}|{rng.choice([0, 1, 2])}")
             elif r < 0.5:
                 tag += 1; pid += 1
